@@ -539,7 +539,16 @@ func c08RunHistory(f []string) string {
 		}
 		done := make(chan res, 1)
 		go func() {
-			r, _, _, _, err := v.SendPSync(master, runid)
+			// a start that ends in a full resync asks with the run id it has — "?" on a fresh start, a checkpoint's otherwise —
+			// never with the one the source is about to announce; what follows must use the ANNOUNCED id
+			req := runid
+			if kind == "full" {
+				req = "?"
+				if len(runid) > 0 && runid[0]%2 == 0 {
+					req = "0123456789abcdef0123456789abcdef01234567"
+				}
+			}
+			r, _, _, _, err := v.SendPSync(master, req)
 			done <- res{r, err}
 		}()
 		select {
